@@ -617,14 +617,15 @@ def rule_dialect_triple(rep: Report, rid="C05.triple") -> None:
     for n, ctx in nf.iter_nodes(tree):
         if n[0] == "setattr" and n[1] == selft and n[2] in group:
             events.append(("set", n[2], tuple(nf.guards_in_ctx(ctx)), n[4]))
-        elif n[0] == "raise" and not any(x[0] == "call" for x in ctx):
-            events.append(("raise", None, tuple(nf.guards_in_ctx(ctx)), n[2]))
+        elif n[0] == "raise":
+            # a raise inside a helper the switch calls counts as the unknown-dialect raise when it comes before the stores
+            events.append(("raise" if not any(x[0] == "call" for x in ctx) else "raise_in_call", None, tuple(nf.guards_in_ctx(ctx)), n[2]))
     sets = [e for e in events if e[0] == "set"]
     gs = {e[2] for e in sets}
     rep.ob(rid, "the three dialect attributes are assigned together on the same path", {e[1] for e in sets} == group and len(gs) == 1,
            file=fi.file, line=fi.node.lineno, function=cd, expected="one path assigning all three", found=[(e[1], e[3]) for e in sets])
-    raises = [e for e in events if e[0] == "raise"]
     first_set = min((i for i, e in enumerate(events) if e[0] == "set"), default=None)
+    raises = [e for e in events if e[0] == "raise" or (e[0] == "raise_in_call" and first_set is not None and events.index(e) < first_set)]
     ok = bool(raises) and first_set is not None and all(events.index(r) < first_set for r in raises)
     rep.ob(rid, "an unknown dialect raises before any of the three attributes is touched", ok, file=fi.file, line=fi.node.lineno, function=cd,
            expected="raise NoSuchLanguageException first", found=[(e[0], e[1], e[3]) for e in events])
